@@ -39,6 +39,7 @@ type target struct {
 	hdrEnd  int
 	ends    []int
 	nWAL    int
+	long    bool // long WAL chain: header-byte / boundary / per-file mutants are sampled instead of exhaustive
 	mutants map[string][]mutant // domain -> list
 }
 
@@ -119,8 +120,13 @@ func genMutants(c *vf.Ctx, t *target) {
 		m.S = splitFor(r, L)
 		raw = append(raw, m)
 	}
-	// every byte of the length prefix and the header
-	for p := 0; p < H; p++ {
+	// every byte of the length prefix and the header (long-chain streams: the
+	// length prefix, the first bytes behind it and a seeded sample)
+	hdrPos := samplePositions(r, 0, H, H)
+	if t.long {
+		hdrPos = append(samplePositions(r, 0, min(16, H), 16), samplePositions(r, min(16, H), H, c.N(48, 240))...)
+	}
+	for _, p := range hdrPos {
 		if c.Quick() {
 			add(mutant{K: "flip", P: p, B: r.IntN(8)})
 			add(mutant{K: "flip", P: p, B: r.IntN(8)})
@@ -150,6 +156,13 @@ func genMutants(c *vf.Ctx, t *target) {
 		}
 	}
 	sort.Ints(bounds)
+	if nb := c.N(16, 60); t.long && len(bounds) > nb {
+		var sel []int
+		for _, k := range samplePositions(r, 0, len(bounds), nb) {
+			sel = append(sel, bounds[k])
+		}
+		bounds = sel
+	}
 	// body positions
 	var flipPos, editPos []int
 	if c.Quick() {
@@ -176,17 +189,35 @@ func genMutants(c *vf.Ctx, t *target) {
 	for _, n := range []int{1, 2, 7, 4096} {
 		add(mutant{K: "append", B: n})
 	}
+	// files whose header fields / contents are edited: all of them; for a
+	// long-chain stream the database, the first and last WAL and seeded others
+	files := map[int]bool{}
+	if t.long {
+		files[0], files[1], files[t.nWAL] = true, true, true
+		for _, k := range samplePositions(r, 2, t.nWAL, c.N(2, 8)) {
+			files[k] = true
+		}
+	} else {
+		for k := 0; k <= t.nWAL; k++ {
+			files[k] = true
+		}
+	}
 	for _, m := range headerEdits(t.nWAL) {
+		if m.I > 0 && !files[m.I+1] {
+			continue
+		}
 		add(m)
 	}
 	// header edits that only neutralise a check, on otherwise untouched data
 	add(mutant{K: "hdr", H: "db-crc-0"})
 	for i := 0; i < t.nWAL; i++ {
-		add(mutant{K: "hdr", H: "wal-crc-0", I: i})
+		if files[i+1] {
+			add(mutant{K: "hdr", H: "wal-crc-0", I: i})
+		}
 	}
 	// compound mutants: (header edit that neutralises or re-aligns a field,
 	// data edit inside the file that field protects)
-	for _, m := range pairMutants(c, t, r) {
+	for _, m := range pairMutants(c, t, r, files) {
 		raw = append(raw, m)
 	}
 	// compressed domain
@@ -222,7 +253,7 @@ func genMutants(c *vf.Ctx, t *target) {
 // CRC field zeroed (= absent in proto3), size field moved by the length
 // change, both, or neither CRC (size only). Every pair is installed with a
 // whole-stream write and with a chunked write, and restored.
-func pairMutants(c *vf.Ctx, t *target, r *rand.Rand) []mutant {
+func pairMutants(c *vf.Ctx, t *target, r *rand.Rand, files map[int]bool) []mutant {
 	b, err := os.ReadFile(t.stream)
 	if err != nil {
 		return nil
@@ -232,7 +263,7 @@ func pairMutants(c *vf.Ctx, t *target, r *rand.Rand) []mutant {
 	start := t.hdrEnd
 	for fi, end := range t.ends {
 		n := end - start
-		if n <= 0 {
+		if n <= 0 || !files[fi] {
 			start = end
 			continue
 		}
@@ -369,7 +400,26 @@ func run(c *vf.Ctx) {
 			shapes = append(shapes, sh)
 		}
 	}
-	var targets []*target
+	// long WAL chains: what a node streams when many incremental snapshots
+	// have piled up behind the newest full one (reaper not yet run) or a full
+	// snapshot is installed with its WALs. The stream header grows with the
+	// number of files (one entry per WAL), so these are the streams whose
+	// header spans hundreds of bytes and many small writes. Appended last, so
+	// the seeded streams of the other shapes are unchanged.
+	firstLong := len(shapes)
+	{
+		r := c.Rand(2)
+		for _, total := range []int{c.N(30, 34) + r.IntN(12)} {
+			sh := snapgen.Shape{FullWALs: 3 + r.IntN(6), Stmts: 1}
+			for n := sh.FullWALs; n < total; {
+				k := min(1+r.IntN(3), total-n)
+				sh.Incs = append(sh.Incs, k)
+				n += k
+			}
+			shapes = append(shapes, sh)
+		}
+	}
+	var targets, longTargets []*target
 	var tmu sync.Mutex
 	var wg sync.WaitGroup
 	sem := make(chan struct{}, 3)
@@ -394,6 +444,11 @@ func run(c *vf.Ctx) {
 			// thorough every snapshot of the store
 			tmu.Lock()
 			defer tmu.Unlock()
+			if i >= firstLong {
+				// the newest snapshot: newest full + every WAL behind it
+				longTargets = append(longTargets, &target{shape: sh.String(), man: man, snap: &man.Snaps[len(man.Snaps)-1], long: true})
+				return
+			}
 			for k := range man.Snaps {
 				if c.Quick() && k != len(man.Snaps)-1 && !(i == 2 && k == len(man.Snaps)-2) {
 					continue
@@ -417,7 +472,9 @@ func run(c *vf.Ctx) {
 		}
 		targets = sel
 	}
+	targets = append(targets, longTargets...)
 	c.Extra("source_streams", len(targets))
+	c.Extra("long_chain_streams", len(longTargets))
 
 	// ---- fetch streams, unaltered installs ----
 	w0, err := startW(root, 0)
@@ -449,6 +506,10 @@ func run(c *vf.Ctx) {
 		}
 		t.hdrEnd, t.ends, t.nWAL = he, ends, len(hdr.GetFull().WalHeaders)
 		c.Count("stream_bytes", int64(r.Len))
+		if t.long {
+			c.Count("long_chain_wal_files", int64(t.nWAL))
+			c.Count("long_chain_header_bytes", int64(he))
+		}
 		c.Count("compressed_bytes", int64(r.ZstLen))
 		if r.ZstLen > r.Len {
 			c.Count("streams_larger_when_compressed", 1)
@@ -476,7 +537,7 @@ func run(c *vf.Ctx) {
 				c.Violation("unaltered:install-failed:"+cls, fmt.Sprintf("stream of %s (%s, %s) written as %q is not installed: %s %s %s", t.snap.ID, t.shape, t.snap.Kind, v.Variant, v.Outcome, v.Err, v.Note), map[string]any{"shape": t.shape, "variant": v.Variant})
 			}
 		}
-		if i < 3 {
+		if i < 3 || t.long {
 			c.Sample(map[string]any{"shape": t.shape, "snapshot": t.snap.ID, "kind": t.snap.Kind, "stream_len": t.length, "compressed_len": t.zstLen, "header_len": t.hdrEnd, "wal_files": t.nWAL, "unaltered_variants": len(cr.Clean)})
 		}
 	}
